@@ -140,6 +140,8 @@ def run(res, tier, rng, table_diffs=()):
     for d in directed:
         cases.append(("directed", d))
     cases += leak_matrix()
+    from .. import gen2
+    cases += [("named-literal-clash", p) for p in gen2.named_literal_clash_programs()]
     cases += dead_code_matrix()
     from .. import gen2
     for _ in range(300 if tier == "quick" else 6000):
